@@ -1,8 +1,9 @@
 import Iota.Driver.All
 import Iota.Driver.GenCode
 import Iota.Driver.GenSecp
+import Iota.Driver.GenAddr
 
 namespace Iota.Driver
 /-- the model's ops and the ops answered by the generated code -/
-def allOps : List (String × Handler) := modelOps ++ GenCode.ops ++ GenSecp.ops
+def allOps : List (String × Handler) := modelOps ++ GenCode.ops ++ GenSecp.ops ++ GenAddr.ops
 end Iota.Driver
